@@ -132,6 +132,16 @@ func (w *World) doGov(in Intent) {
 		}
 		w.St.Fault("gov_param_change")
 		w.Submit("gov_submit", proposer, in.Net, map[string]string{"op": in.Op}, msg)
+	case "param_chains":
+		// governance shrinks (or empties: the bridge is paused) the list of chains the bridge serves
+		pc := paramproposal.NewParameterChangeProposal("chains", "change the chains the bridge serves", []paramproposal.ParamChange{
+			paramproposal.NewParamChange("mhub2", "Chains", in.Amt)})
+		msg, err := govtypes.NewMsgSubmitProposal(pc, deposit, proposer.Addr)
+		if err != nil {
+			return
+		}
+		w.St.Fault("gov_param_change")
+		w.Submit("gov_submit", proposer, in.Net, map[string]string{"op": in.Op}, msg)
 	case "delist":
 		// governance removes one token from the list while transfers of it may be pending
 		infos := w.ReadState().TokenInfos()
